@@ -3,9 +3,11 @@
    mapper kind; the three implementations (OffsetPageTable, MappedPageTable, RecursivePageTable)
    are tied to it -- and to the slot-by-slot memory models Paging/Mapped.v, Paging/Recursive.v --
    by the correspondence check on whole call histories (engines "tree" and "map").
-   Partial: that the memory-level models refine the tree (separation of table frames) is
-   checked by that correspondence, not proved. *)
-From X86 Require Import Paging.Tree Paging.TreeProofs.
+   Partial: for map_to of MappedPageTable/OffsetPageTable the refinement memory model -> tree
+   is proved (C01_map_to_memory_model_refines_tree, by induction over the path with a
+   separation invariant); for the other operations and for RecursivePageTable it is checked by
+   that correspondence, not proved. *)
+From X86 Require Import Paging.Mapped Paging.Tree Paging.TreeProofs Paging.Refine.
 Open Scope Z_scope.
 
 (* after ANY history from the empty level-4 table, every index path reaches exactly the leaf the
@@ -110,3 +112,25 @@ Theorem C01_huge_pat_flag_refuted :
   = [[0; 1073741824]; [E_INVALID_FRAME; 2101248]; [E_INVALID_FRAME; 2101248]].
 Proof. exact F7b_witness. Qed.
 Print Assumptions C01_huge_pat_flag_refuted.
+
+(* the slot-by-slot memory model of MappedPageTable::map_to refines the tree operation: from a
+   state that represents a tree (Rep, with the table frames and the allocator's frames pairwise
+   distinct) it returns what map_path returns and reaches a state that represents map_path's
+   tree; memory outside the hierarchy's frames and the allocator's frames is untouched *)
+Theorem C01_map_to_memory_model_refines_tree : forall s ch k page frame flags pf,
+  0 <= k <= 2 ->
+  rep 4 s ch (root s) -> tframe (root s) -> sep s (root s) ch -> pflags_ok pf ->
+  leaf_ok (Z.to_nat (k + 1)) (leaf_word k frame flags) ->
+  exists s' o ch' a' r,
+    map_to s k page frame flags pf = Ok (s', o) /\
+    map_path false ch (idx_list k page) (leaf_word k frame flags) frame page pf (aor_of s) = (ch', a', r) /\
+    o = out_of r /\ aor_of s' = a' /\ root s' = root s /\ freed s' = freed s /\
+    rep 4 s' ch' (root s') /\ sep s' (root s') ch' /\
+    (forall a, 0 <= a -> ~ in_frames (root s :: frames_of ch ++ va s) a -> rd s' a = rd s a).
+Proof. exact map_to_refines. Qed.
+Print Assumptions C01_map_to_memory_model_refines_tree.
+
+Theorem C01_empty_table_represents_the_empty_tree : forall rootf allocs r,
+  0 <= rootf -> rootf mod 4096 = 0 -> rep 4 (init_pstate rootf allocs r) empty_children rootf.
+Proof. exact rep_init. Qed.
+Print Assumptions C01_empty_table_represents_the_empty_tree.
